@@ -23,7 +23,7 @@ PLAN = {'quick': {'gen': 8}, 'thorough': {'gen': 16, 'tests': 1, 'docs': 1}}
 REQUIRED_BUCKETS = ['qe:scalar', 'qe:vector', 'qe:spectrum', 'qe:offset-table', 'unit:nm', 'unit:um', 'unit:m', 'unit:angstrom', 'bayer:k=1',
                     'bayer:k=2', 'bayer:k=3', 'bayer:k=4', 'bayer:os=1', 'bayer:os=2', 'bayer:os>=3', 'bayer:nonsquare',
                     'bayer:channels', 'bayer:spectrum-qe', 'bayer:unit!=nm', 'gain:scalar', 'gain:poly', 'gain:pixel', 'gain:pixel-poly', 'adc:negative',
-                    'adc:saturated', 'adc:dtype', 'adc:warn']
+                    'adc:saturated', 'adc:dtype', 'adc:warn', 'adc:max==capacity', 'adc:small-int-frame', 'bayer:cube-not-float64']
 REQUIRED_ANCHORS = ['probe:collect_charge', 'probe:collect_charge_bayer', 'probe:adc', 'anchor:qe_asarray',
                     'anchor:format_bayer_string']
 REQUIRED_ORACLES = ['charge=sum', 'charge:qe-forms', 'charge:linear', 'bayer=pattern', 'bayer:equal-qe=mono',
@@ -291,6 +291,11 @@ def workload(ctx, lentil):
             os_ = max(1, os_ // 2)
             shape = (nr * k * os_, nc * k * os_)
         img = gen.layout(rng, rng.uniform(0, 1e3, size=(nw,) + shape), 0.25)
+        if i % 6 == 2:
+            # photon cubes that are not float64: Poisson counts, camera integers, single precision
+            dt_i = [np.int64, np.uint16, np.float32, np.int32][int(rng.integers(0, 4))]
+            img = np.floor(img).astype(dt_i) if np.dtype(dt_i).kind in 'iu' else img.astype(dt_i)
+            ctx.bucket('bayer:cube-not-float64')
         bunit = sm.WAVE_CANON[int(rng.integers(0, 4))] if rng.random() < 0.5 else 'nm'
         wave = (np.linspace(450, 800, nw) if nw > 1 else np.array([550.0])) * sm.wave_factor('nm', bunit)
         qes = [rng.uniform(0, 1, size=nw) if rng.random() < 0.6 else float(rng.uniform(0, 1)) for _ in range(3)]
@@ -334,6 +339,11 @@ def workload(ctx, lentil):
             e = np.floor(e)
         if rng.random() < 0.1:
             e = e.astype(np.int64)
+        elif i % 7 == 3:
+            # electron frames as integer arrays of the sizes cameras and Poisson generators deliver
+            dt_e = [np.int16, np.uint16, np.int32, np.uint32][int(rng.integers(0, 4))]
+            e = np.clip(np.floor(np.abs(e)), 0, np.iinfo(dt_e).max).astype(dt_e)
+            ctx.bucket('adc:small-int-frame')
         neg = bool((e < 0).any())
         coef = lambda size=None: rng.uniform(0.0, 1.0, size=size)
         if form == 'scalar':
@@ -349,7 +359,14 @@ def workload(ctx, lentil):
         sat = None if rng.random() < 0.4 else float(rng.uniform(0.3, 1.2) * scale)
         if sat is not None and rng.random() < 0.3:
             sat = int(sat)
-        warn = bool(rng.random() < 0.5)
+        if sat is not None and i % 5 == 1:
+            # the brightest pixel sits exactly AT the capacity (typical for integer electron frames): nothing exceeds it
+            sat = float(e.max()) if e.dtype.kind == 'f' else int(e.max())
+            if sat > 0:
+                ctx.bucket('adc:max==capacity')
+            else:
+                sat = None
+        warn = bool(rng.random() < 0.5) or (sat is not None and i % 5 == 1)
         dtype = [None, np.uint16, np.int32, np.uint32, np.float32, np.int64][int(rng.integers(0, 6))]
         saturated = sat is not None and bool((e > sat).any())
         desc = {'adc': form, 'order': order, 'shape': list(shape), 'sat': sat, 'warn': warn, 'dtype': str(dtype),
